@@ -80,6 +80,8 @@ def enumerate_cases(tier):
         for width in range(0, 29):
             for shape in ((128, 4), (256, 8), (128, 1), (256, 2)):
                 yield {"f": "delta", "is64": is64, "width": width, "shape": list(shape), "tier": tier}
+        for shape in ((128, 4), (256, 8)):
+            yield {"f": "delta", "is64": is64, "width": 3, "shape": list(shape), "single": True, "tier": tier}
         # a trend under the pattern: the per-block minimum delta is far from zero (timestamps seconds apart in ns, ...)
         steps = [-3, 2 ** 31 + 5, -(2 ** 31) - 7, 2 ** 40 + 1, -(2 ** 45)] if is64 else [-3, 2 ** 30 + 1, -(2 ** 30) - 1]
         for step in steps:
@@ -357,7 +359,10 @@ def _delta(case, tier):
     from vf.refpq import encodings as enc
     is64, width, (block, minis) = case["is64"], case["width"], case["shape"]
     per = block // minis
-    counts = sorted({1, 2, 3, per - 1, per, per + 1, per + 2, 2 * per, 2 * per + 1, block, block + 1, block + 2, 2 * block + 3})
+    counts = sorted(c for c in {2, 3, per - 1, per, per + 1, per + 2, 2 * per, 2 * per + 1, block, block + 2, 2 * block + 3} if c % block != 1)
+    if case.get("single"):
+        # one value left after full blocks: no block follows (its own case: recorded finding C12-delta-single-value)
+        counts = [1, block + 1, 2 * block + 1]
     n_exec, nt = 0, []
     item = 8 if is64 else 4
     for count in counts:
